@@ -15,7 +15,16 @@ LEVEL_TEXT = ("partial: Coq theorems over a small-step interleaving model of bot
               "sampled by a -race stress run (thorough tier), not proved; the runner's oracle judges every finished "
               "execution: without size limit by the sequential specification seq_exec, with the size limit by the "
               "sub-action specification qstep (Model/ConcEnfSpec.v)")
-LEVEL_NOTE = ("FAULT FAMILY: the models have no I/O errors. Cases of kind 'fault' (a directory planted at <mailbox dir>/index.gob.tmp "
+LEVEL_NOTE = ("TIE TO C07 (theorems, not only through the code): Conc.seq_exec — the sequential specification the interleaved "
+              "memory store is proved linearizable to — IS C07's MemStore.exec_mem without size limit, hence StoreSpec "
+              "(conc_spec_is_storespec / conc_spec_final_is_memstore, every cap); therefore every finished concurrent "
+              "execution without size limit is a StoreSpec.run_spec history in commit order (mem_linearizable_to_storespec) and "
+              "a run of non-overlapping operations answers exactly as run_mem (conc_sequential_is_memstore). Bridged "
+              "differences, visible in the statements: a Conc id is C07's handle Kth(id-1) relative to the COMMIT order (id "
+              "allocation under concurrency), mailbox n is the name [n], dates are 0, C07's richer observations are projected "
+              "(down_obs), a walk is a sequence of listings. Not proved (NOT_PROVED): the same with the size limit (eviction "
+              "timing / enforcer book-keeping) and the file-store counterpart. "
+              "FAULT FAMILY: the models have no I/O errors. Cases of kind 'fault' (a directory planted at <mailbox dir>/index.gob.tmp "
               "= persistent failure of that mailbox's index rewrite; stands for disk full / read-only / lost permission) are "
               "judged by the clause directly — every operation must RETURN (error or not) and the lock-bucket neighbour must be "
               "served: verdicts fail:operation-never-returns-after-io-failure / fail:bucket-neighbour-blocked (per-operation "
@@ -63,7 +72,10 @@ ASSUMPTIONS = [
     "POSIX rename/unlink/mkdir are atomic; one file-system mutation per scheduling point",
     "no two file-store ids collide (C07's id hypothesis); ids in the file model are an abstract fresh counter",
 ]
-NOT_PROVED = []
+NOT_PROVED = [
+    "conc_sequential_is_memstore_limit_stmt (Proofs/ConcC07Seq.v): non-overlapping runs of the memory-store concurrency model WITH the size limit answer as C07's run_mem (needs the correspondence of the enforcer's book-keeping; distinct tags as hypothesis) — proved only without size limit (conc_sequential_is_memstore); with the limit checked by forced-schedule correspondence and the qstep oracle",
+    "file_spec_is_storespec_stmt (Proofs/ConcC07File.v): the sequential specification of the file-store concurrency model (fseq_exec) is StoreSpec without cap and size limit, ids read as handles through the issued table — sanity-checked by vm_compute on a history, not proved; the file side is tied to C07 through the code only",
+]
 EXEC_TIMEOUT = {"quick": 600, "thorough": 7200}
 
 
